@@ -1066,3 +1066,22 @@ def setup() -> None:
     from . import vsocket
 
     vsocket.install_compile_cache()
+    _quiet_late_warnings()
+
+
+def _quiet_late_warnings() -> None:
+    """channels of a finished world are finalised later (gc is off during an execution); their
+    "unhandled RemoteError" warnings belong to that world's stderr, not to the check's output"""
+    from execnet import gateway_base as gb
+
+    if getattr(gb.RemoteError.warn, "_vp", False):
+        return
+    orig = gb.RemoteError.warn
+
+    def warn(self):
+        if _CUR_WORLD[0] is None:
+            return
+        orig(self)
+
+    warn._vp = True  # type: ignore[attr-defined]
+    gb.RemoteError.warn = warn  # type: ignore[method-assign]
